@@ -323,3 +323,17 @@ Theorem C19_parse_section_current : forall fstr fzero file first last title v c 
     end.
 Proof. exact parse_section_pin. Qed.
 Print Assumptions C19_parse_section_current.
+
+(* the same, as LASFile.read uses the function: for every section that find_sections finds in a file ("#" as the
+   comment character), with no hypothesis on the line numbers (Proofs/FuncsPinParseSection.v:
+   find_sections_extent) *)
+Theorem C19_parse_section_found_current : forall fstr fzero ls p v c ign,
+  In p (find_sections ls) -> v <> V30 ->
+  py_parse_header_items_section (hval_ops fstr fzero) num_hval_ops hsect_ops (skipn (sp_first p) ls)
+    (Z.of_nat (sp_first p), Z.of_nat (sp_last p)) v ign (case_str c) [[ch_hash]]
+  = match parse_section v (sp_title p) c ign [ch_hash] (body_lines ls p) with
+    | POk items => Some (case_transforms c, items)
+    | PErr _ => None
+    end.
+Proof. exact parse_section_found_pin. Qed.
+Print Assumptions C19_parse_section_found_current.
